@@ -240,6 +240,12 @@ ATOMS = [
     ("assign", "x", ("idx", "a", ("bin", "+", L("long", 4294967296), Y))),
     ("aassign", "a", ("bin", "+", L("long", 4294967296), L("long", 1)), X),
     ("assign", "x", ("call", "nfind", [Y])),
+    # assignments as values (hunt C07/d7): 'x = a[1] = 9', 'a[0] = a[2] = 7', '(x = 4) + 1'
+    ("assign", "x", ("aassignx", "a", L("int", 1), L("int", 9), False)),
+    ("aassign", "a", L("int", 0), ("aassignx", "a", L("int", 2), ("bin", "+", Y, L("int", 7)), False)),
+    ("aassign", "a", L("int", 0), ("bin", "+", ("assignx", "x", L("int", 4)), L("int", 1))),
+    ("assign", "y", ("bin", "*", ("aassignx", "a", X, Y, True), L("int", 2))),
+    ("echo", ("assignx", "y", ("bin", "+", X, L("int", 1)))),
 ]
 
 
